@@ -77,6 +77,18 @@ def gen_case(rng, ci, quick):
             ops += [P(k, body("PING a", c)), P(k, body("PING b", fresh())), P(k, body("PING a", c))]
         else:
             pass
+        # ---- a REAL raft snapshot (compaction folds everything applied so far) + FSM.Restore between copy and retry
+        if k not in dead and rng.random() < 0.25:
+            c = fresh()
+            line = rng.choice(["PRIVMSG %s :compacted %d" % (nick((k + 1) % ns), c), "PING compacted%d" % c])
+            kshape = rng.random()
+            if kshape < 0.45:      # the first copy became a message of death, then got compacted
+                ops += ["X:%d:%d:%s" % (k, c, hx(line)), "K", "T:%d" % k, "T:%d" % k]
+            elif kshape < 0.80:    # ordinary first copy, compacted
+                ops += [P(k, body(line, c)), "K", "T:%d" % k]
+            else:                  # message of death, other traffic, two snapshots in a row, duplicate entry in the log afterwards
+                j = rng.choice([x for x in range(ns) if x != k])
+                ops += ["X:%d:%d:%s" % (k, c, hx(line)), I(j, "PING keepalive"), "K", I(j, "PING again"), "K", "Q:%d:%d:%s" % (k, c, hx(line)), "T:%d" % k]
         # ---- the second copy IS in the log (a handler that lagged behind the log proposed it, D14): injected with Q
         if k in dead or rng.random() > 0.45:
             continue
@@ -148,7 +160,9 @@ def model_case(obs):
             st = int(o["status"])
             res = {404: "refused", 500: "bad", 200: "ok"}.get(st, "other%d" % st)
             want.append("D:%s:%s" % (res, "1" if o["alive"] == "true" else "0")); entries += int(o["grew"])
-        elif k == "S":
+        elif k == "S" or (k == "K" and "markers_same" in o):
+            # K = real FSM.Snapshot (compaction fold) + Persist + FSM.Restore; the model's restore is the identity on
+            # sessions and markers (hypothesis of C10_retries / C10_processed_once), which K checks on the compaction path
             mops.append("S"); want.append("S")
         elif k == "Z" and "markers" in o:
             mk = ",".join("%s.%s.%s" % tuple(t.split(".")) for t in o["markers"].split(",")) if o["markers"] != "-" else "-"
@@ -216,6 +230,11 @@ def monitor(ops, obs):
         elif k == "S":
             if o.get("markers_same") != "true":
                 fails.append(("marker-lost-in-snapshot", "LastPostMessage differs after Unmarshal(Marshal()): %s vs %s" % (o.get("before"), o.get("after"))))
+        elif k == "K":
+            if "noop" in o:
+                continue         # raft had nothing new to snapshot
+            if o.get("markers_same") != "true":
+                fails.append(("marker-lost-in-compaction", "LastPostMessage differs after a raft snapshot (FSM.Snapshot fold + Persist) and FSM.Restore: %s vs %s" % (o.get("before"), o.get("after"))))
         elif k == "Z":
             if o.get("replica_markers") != "true":
                 fails.append(("replica-marker-differs", "a second instance fed the same log has different markers"))
@@ -267,7 +286,8 @@ def run(ck, replay):
                        "duplicate log entry, is injected directly into raft (op Q)",
                        "client message id 0 means 'no id': the first message with id 0 on a fresh session is swallowed by the handler and two log entries with id 0 are two "
                        "messages (both not forbidden by C10)",
-                       "Marshal/Unmarshal keeps sessions and markers (hypothesis of C10_retries/C10_processed_once; compared on the implementation in every case: ops S and Z)",
+                       "Marshal/Unmarshal and compaction+restore keep sessions and markers (hypothesis of C10_retries/C10_processed_once; compared on the implementation in every case: "
+                       "op S = Unmarshal(Marshal(state)), op K = raft snapshot through FSM.Snapshot's fold + Persist + FSM.Restore, op Z)",
                        "session ids are never re-used (raft indexes)"]
     ok = ck.proof_obligations()
     facts, _, slog = api.scan_routes()
@@ -333,7 +353,8 @@ def run(ck, replay):
     ck.cov["disagreements_checked"] = len(lines)
     ck.cov["traces_validated_against_impl"] = len(lines)
     ck.cov["retries_checked_by_monitor"] = retries
-    ck.cov["rule"] = ("histories of 2-4 sessions on one node: POST + 1-3 byte-identical repeats, with other sessions' traffic, Marshal/Unmarshal restore, an injected "
+    ck.cov["rule"] = ("histories of 2-4 sessions on one node: POST + 1-3 byte-identical repeats, with other sessions' traffic, Marshal/Unmarshal restore, a real raft snapshot "
+                      "(FSM.Snapshot folding everything applied so far, Persist, FSM.Restore) between copy and repeat — also when the copy is a message of death —, an injected "
                       "message-of-death entry, QUIT / operator KILL / DELETE of the session between copy and repeat; duplicate IRCFromClient entries injected into raft right after the "
                       "first copy, across restores, behind other sessions' traffic, behind a newer message of the same session (must be processed), with id 0 twice (processed "
                       "twice), with different text, after the session ended; bodies with newline, CR/NUL, >2048 bytes, trailing "
